@@ -1,6 +1,7 @@
 package main
 
 import (
+	"bytes"
 	"fmt"
 	"time"
 
@@ -204,6 +205,42 @@ func c03Catalogue() []c03Attack {
 			b.deliver("RespDone-shaped", m.Data(3, nil))
 			return b.reached, fmt.Sprintf("steps=%d", steps)
 		}},
+		{"resp-victim/same-hello-to-claimed-key-as-responder", func(r *ev.Run, g *rng.R, caseID string) (bool, string) {
+			// M sends byte-identical InitHellos (same ephemeral, A's replayed claim) to the victim responder B and to A itself
+			// acting as a responder elsewhere, and offers the signature of A's RespHello as the InitDone proof to B. The two
+			// handshakes share their transcript up to the InitHello only.
+			a := newSession(keyN(kA), true, pkeT0)
+			payload := extractInitHelloPayload(a.Handshake(nil))
+			seed := g.Bytes(32)
+			m1, m2 := newRawPeerSeeded(keyN(kM), true, seed), newRawPeerSeeded(keyN(kM), true, seed)
+			hello1, hello2 := m1.InitHelloWith(payload), m2.InitHelloWith(payload)
+			if !bytes.Equal(hello1, hello2) {
+				return false, "ephemerals-differ"
+			}
+			b := &victim{s: newSession(keyN(kB), false, pkeT0), name: "responder B", now: pkeT0.Add(time.Second), viol: mkViol(r, caseID), attack: "same-hello-two-responders"}
+			mPub := keyN(kM).Pub
+			b.truePeer = &mPub
+			reply, _, err := b.deliver("InitHello(M ephemeral, A's claim)", hello1)
+			if err != nil || reply == nil {
+				return false, "rejected-at-hello"
+			}
+			if _, err := m1.ReadRespHello(reply); err != nil {
+				return false, "x"
+			}
+			aResp := newSession(keyN(kA), false, pkeT0)
+			_, replyA, err := aResp.Deliver(nil, hello2, pkeT0.Add(time.Second))
+			if err != nil || replyA == nil {
+				return false, "claimed-key-owner-refused-the-hello"
+			}
+			rh, err := m2.ReadRespHello(replyA)
+			if err != nil {
+				return false, "x"
+			}
+			b.deliver("InitDone(signature lifted from A's RespHello to the same InitHello)", m1.InitDone(rh.Sig))
+			b.deliver("data ctr=16", m1.Data(16, []byte("spliced")))
+			b.deliver("data ctr=17", m1.Data(17, []byte("spliced")))
+			return b.reached, "spliced"
+		}},
 		{"resp-victim/truthful-control", func(r *ev.Run, g *rng.R, caseID string) (bool, string) {
 			m := newRawPeer(keyN(kM), true)
 			b := &victim{s: newSession(keyN(kB), false, pkeT0), name: "responder B", now: pkeT0.Add(time.Second), viol: mkViol(r, caseID), attack: "truthful-control"}
@@ -211,7 +248,7 @@ func c03Catalogue() []c03Attack {
 			b.truePeer = &mPub
 			reply, _, err := b.deliver("InitHello(truthful)", m.InitHelloOwn(pkeT0))
 			if err != nil || reply == nil {
-				b.viol("C03/control-failed/resp", "the raw attacker's truthful InitHello was rejected (harness or protocol drift)", b.detail(map[string]any{"err": fmt.Sprint(err)}))
+				r.Inconclusive("c03 control (resp): " + "the raw attacker's truthful InitHello was rejected (harness or protocol drift)") // the harness's reference peer and the library no longer speak the same protocol: nothing can be judged
 				return false, "x"
 			}
 			if _, err := m.ReadRespHello(reply); err != nil {
@@ -219,12 +256,12 @@ func c03Catalogue() []c03Attack {
 			}
 			reply, _, err = b.deliver("InitDone(truthful)", m.InitDone(advSign(keyN(kM), advPurposeCB, m.cbAfter)))
 			if err != nil || !b.s.IsReady() {
-				b.viol("C03/control-failed/resp", "a truthful raw handshake did not make the responder ready", b.detail(map[string]any{"err": fmt.Sprint(err)}))
+				r.Inconclusive("c03 control (resp): " + "a truthful raw handshake did not make the responder ready") // the harness's reference peer and the library no longer speak the same protocol: nothing can be judged
 				return false, "x"
 			}
 			_, isApp, _ := b.deliver("data", m.NextData([]byte("hello")))
 			if !isApp {
-				b.viol("C03/control-failed/resp", "truthful raw peer's data not accepted", b.detail(nil))
+				r.Inconclusive("c03 control (resp): " + "truthful raw peer's data not accepted") // the harness's reference peer and the library no longer speak the same protocol: nothing can be judged
 			}
 			return true, "control"
 		}},
@@ -262,11 +299,11 @@ func c03Catalogue() []c03Attack {
 			}
 			reply, _, err := a.deliver("RespHello(truthful)", m.RespHello(advKeyBytes(keyN(kM)), advSign(keyN(kM), advPurposeCB, m.cbBefore)))
 			if err != nil || reply == nil {
-				a.viol("C03/control-failed/init", "truthful raw RespHello rejected", a.detail(map[string]any{"err": fmt.Sprint(err)}))
+				r.Inconclusive("c03 control (init): " + "truthful raw RespHello rejected") // the harness's reference peer and the library no longer speak the same protocol: nothing can be judged
 				return false, "x"
 			}
 			if _, err := m.ReadInitDone(reply); err != nil {
-				a.viol("C03/control-failed/init", "raw responder cannot read the initiator's InitDone", a.detail(map[string]any{"err": fmt.Sprint(err)}))
+				r.Inconclusive("c03 control (init): " + "raw responder cannot read the initiator's InitDone") // the harness's reference peer and the library no longer speak the same protocol: nothing can be judged
 				return false, "x"
 			}
 			if g.Bool() {
@@ -275,7 +312,7 @@ func c03Catalogue() []c03Attack {
 				a.deliver("data instead of RespDone", m.NextData([]byte("d")))
 			}
 			if !a.s.IsReady() {
-				a.viol("C03/control-failed/init", "truthful raw handshake did not make the initiator ready", a.detail(nil))
+				r.Inconclusive("c03 control (init): " + "truthful raw handshake did not make the initiator ready") // the harness's reference peer and the library no longer speak the same protocol: nothing can be judged
 			}
 			return true, "control"
 		}},
